@@ -36,7 +36,7 @@ theorem normalize_canon : ∀ (t : VTy) (j c : Json), WFTy t → decodeVal false
   refine decodeVal.induct false
     (motive1 := fun t j => ∀ c, WFTy t → decodeVal false t j = some c → normalize c = some c)
     (motive2 := fun t xs => ∀ cs, WFTy t → decodeVals false t xs = some cs → normalizeList cs = some cs)
-    ?_ ?_ ?_ ?_ ?_ ?_ ?_ ?_ ?_ ?_ ?_ ?_ ?_ ?_ ?_ ?_ ?_ ?_ t j
+    ?_ ?_ ?_ ?_ ?_ ?_ ?_ ?_ ?_ ?_ ?_ ?_ ?_ ?_ ?_ ?_ ?_ ?_ ?_ ?_ t j
   · intro bits s c hw h
     simp only [decodeVal] at h
     cases hn : canonNat s with
@@ -78,6 +78,8 @@ theorem normalize_canon : ∀ (t : VTy) (j c : Json), WFTy t → decodeVal false
       split at h
       · cases h; simp [normalize]
       · cases h
+  · intro s hb c _ h; simp only [decodeVal, hb, if_true] at h; cases h; simp [normalize]
+  · intro s hb c _ h; simp [decodeVal, hb] at h
   · intro ms c _ h; simp only [decodeVal] at h; cases h; simp [normalize, normalizeMembers]
   · intro xs hv; simp at hv
   · intro xs hv c _ h; simp [decodeVal] at h
@@ -108,14 +110,11 @@ theorem normalize_canon : ∀ (t : VTy) (j c : Json), WFTy t → decodeVal false
         simp [normalize, normalizeList, iha x' hw.1 hx, ihb y' hw.2 hy]
   · intro a b2 x y hd tl hv; simp at hv
   · intro a b2 x y hd tl hv c _ h; simp [decodeVal] at h
-  · intro t j h1 h2 h3 h4 h5 h6 h7 h8 h9 h10 h11 h12 h13 c _ h
+  · intro t j h1 h2 h3 h4 h5 h6 h7 h8 h9 h10 h11 h12 h13 h14 c _ h
     exfalso
     cases t <;> cases j <;>
       first
-      | exact h1 _ _ rfl rfl | exact h2 _ _ rfl rfl | exact h3 _ rfl rfl
-      | exact h4 _ rfl rfl | exact h5 _ rfl rfl | exact h6 _ rfl rfl
-      | exact h7 _ rfl rfl | exact h8 _ rfl rfl | exact h9 _ rfl rfl | exact h10 _ rfl
-      | exact h11 _ _ rfl rfl
+      | exact h1 _ _ rfl rfl | exact h1 _ rfl rfl | exact h1 _ rfl | exact h2 _ _ rfl rfl | exact h2 _ rfl rfl | exact h2 _ rfl | exact h3 _ _ rfl rfl | exact h3 _ rfl rfl | exact h3 _ rfl | exact h4 _ _ rfl rfl | exact h4 _ rfl rfl | exact h4 _ rfl | exact h5 _ _ rfl rfl | exact h5 _ rfl rfl | exact h5 _ rfl | exact h6 _ _ rfl rfl | exact h6 _ rfl rfl | exact h6 _ rfl | exact h7 _ _ rfl rfl | exact h7 _ rfl rfl | exact h7 _ rfl | exact h8 _ _ rfl rfl | exact h8 _ rfl rfl | exact h8 _ rfl | exact h9 _ _ rfl rfl | exact h9 _ rfl rfl | exact h9 _ rfl | exact h10 _ _ rfl rfl | exact h10 _ rfl rfl | exact h10 _ rfl | exact h11 _ _ rfl rfl | exact h11 _ rfl rfl | exact h11 _ rfl | exact h12 _ _ rfl rfl | exact h12 _ rfl rfl | exact h12 _ rfl | exact h13 _ _ rfl rfl | exact h13 _ rfl rfl | exact h13 _ rfl | exact h14 _ _ rfl rfl | exact h14 _ rfl rfl | exact h14 _ rfl
       | (simp [decodeVal] at h; done)
       | skip
   · intro t cs _ h; simp only [decodeVals] at h; cases h; simp [normalizeList]
